@@ -1170,45 +1170,112 @@ def work_list(tier, seed):
     return items
 
 
+def supervise(tier, seed, nparts, deadline, prefix, died_clause):
+    """run the worker processes; returns (list of the workers' result dicts, number of respawns).  Everything the
+    workers write lives under one temporary directory that is removed here, whatever happens."""
+    root = tempfile.mkdtemp(prefix=prefix)
+    results, respawns, procs = [], 0, {}
+
+    def spawn(part, start):
+        spec = {'tier': tier, 'seed': seed, 'part': part, 'nparts': nparts, 'start': start, 'deadline': deadline,
+                'root': root}
+        return subprocess.Popen([sys.executable, os.path.abspath(__file__), '--worker', json.dumps(spec)],
+                                stdout=subprocess.PIPE, stderr=subprocess.PIPE, text=True)
+    try:
+        for part in range(nparts):
+            procs[part] = spawn(part, 0)
+        while procs:
+            for part in list(procs):
+                out, err = procs[part].communicate()
+                code = procs[part].returncode
+                del procs[part]
+                line = out.strip().splitlines()[-1] if out.strip() else ''
+                try:
+                    res = json.loads(line)
+                    if not isinstance(res, dict) or 'nfail' not in res:
+                        raise ValueError
+                except ValueError:
+                    # the worker died (e.g. a crash inside the engine): take what it had finished, record the item it
+                    # was working on and resume behind it
+                    try:
+                        with open(os.path.join(root, 'state_%d.json' % part)) as fh:
+                            state = json.load(fh)
+                        os.remove(os.path.join(root, 'state_%d.json' % part))
+                        res = state['result']
+                        res['nfail'] += 1
+                        res['failures'].append({'clause': died_clause, 'case': {'item': state['what']},
+                                                'expected': 'a result', 'got': 'the process died (exit code %s): %s'
+                                                % (code, (err or '')[-300:])})
+                        key = died_clause + ' | process died'
+                        res['hist'][key] = res['hist'].get(key, 0) + 1
+                        res['resume'] = state['current'] + 1
+                    except (OSError, ValueError, KeyError):
+                        res = {'cases': 0, 'nfail': 1, 'hist': {'harness | no result line': 1}, 'resume': None,
+                               'timed_out': False,
+                               'failures': [{'clause': 'harness', 'case': {'worker': part}, 'expected': 'a result line',
+                                             'got': (err or out)[-600:]}]}
+                results.append(res)
+                if res.get('resume') is not None and respawns < 40:
+                    respawns += 1
+                    procs[part] = spawn(part, res['resume'])
+    finally:
+        for pr in procs.values():
+            try:
+                pr.kill()
+            except OSError:
+                pass
+        shutil.rmtree(root, ignore_errors=True)
+    return results, respawns
+
+
+def save_state(root, part, state):
+    tmp = os.path.join(root, 'state_%d.tmp' % part)
+    with open(tmp, 'w') as fh:
+        json.dump(state, fh)
+    os.replace(tmp, os.path.join(root, 'state_%d.json' % part))
+
+
 def worker_main(spec):
     tier, seed, part, nparts, start = spec['tier'], spec['seed'], spec['part'], spec['nparts'], spec['start']
-    tmp = tempfile.mkdtemp(prefix='c01w_')
-    os.chdir(tmp)
+    root = spec['root']
+    os.chdir(tempfile.mkdtemp(prefix='w%d_' % part, dir=root))
     w = Worker(tier, seed)
     items = work_list(tier, seed)
     resume = None
     deadline = spec.get('deadline')
     timed_out = False
-    try:
-        for pos in range(start, len(items)):
-            if pos % nparts != part:
-                continue
-            if deadline and time.time() > deadline:
-                timed_out = True
-                break
-            it = items[pos]
-            try:
-                if it[0] == 'probe':
-                    w.run_probe()
-                elif it[0] == 'cdf':
-                    w.run_cdf_grid()
-                elif it[0] == 'formula':
-                    w.run_formula(it[1], it[2], it[3], it[4])
-                elif it[0] == 'shared':
-                    w.run_shared(it[1], it[2], it[3])
-                elif it[0] == 'sbs':
-                    w.run_side_by_side(it[1], it[2])
-                elif it[0] == 'names':
-                    w.run_name_order(it[1], it[2])
-            except EngineBroken:
-                resume = pos + 1
-                break
-    finally:
-        os.chdir('/')
-        shutil.rmtree(tmp, ignore_errors=True)
-    print(json.dumps({'cases': w.cases, 'failures': [f for f in w.failures if f is not None],
-                      'nfail': len(w.failures), 'stats': w.stats, 'resume': resume, 'items': len(items),
-                      'skip_reasons': w.skip_reasons, 'hist': w.hist, 'timed_out': timed_out}))
+
+    def result():
+        return {'cases': w.cases, 'failures': [f for f in w.failures if f is not None], 'nfail': len(w.failures),
+                'stats': w.stats, 'resume': resume, 'items': len(items), 'skip_reasons': w.skip_reasons, 'hist': w.hist,
+                'timed_out': timed_out}
+    for pos in range(start, len(items)):
+        if pos % nparts != part:
+            continue
+        if deadline and time.time() > deadline:
+            timed_out = True
+            break
+        it = items[pos]
+        # if the process dies inside the engine, the parent reads this file, records the item and resumes behind it
+        what = it[0] if len(it) < 4 else '%s %s' % (it[2], show(it[3]))
+        save_state(root, part, {'current': pos, 'what': what[:600], 'result': result()})
+        try:
+            if it[0] == 'probe':
+                w.run_probe()
+            elif it[0] == 'cdf':
+                w.run_cdf_grid()
+            elif it[0] == 'formula':
+                w.run_formula(it[1], it[2], it[3], it[4])
+            elif it[0] == 'shared':
+                w.run_shared(it[1], it[2], it[3])
+            elif it[0] == 'sbs':
+                w.run_side_by_side(it[1], it[2])
+            elif it[0] == 'names':
+                w.run_name_order(it[1], it[2])
+        except EngineBroken:
+            resume = pos + 1
+            break
+    print(json.dumps(result()))
 
 
 def main():
@@ -1223,44 +1290,21 @@ def main():
         return 1
     t0 = time.time()
     deadline = t0 + (50 if tier == 'quick' else 560)
-    nparts = 4 if tier == 'quick' else 8
-    procs = {}
-
-    def spawn(part, start):
-        spec = {'tier': tier, 'seed': seed, 'part': part, 'nparts': nparts, 'start': start, 'deadline': deadline}
-        return subprocess.Popen([sys.executable, os.path.abspath(__file__), '--worker', json.dumps(spec)],
-                                stdout=subprocess.PIPE, stderr=subprocess.PIPE, text=True)
-    for part in range(nparts):
-        procs[part] = spawn(part, 0)
-    cases, failures, nfail, respawns = 0, [], 0, 0
-    stats, reasons, items, timed_out = {}, {}, None, False
-    hist = {}
-    while procs:
-        for part in list(procs):
-            out, err = procs[part].communicate()
-            del procs[part]
-            line = out.strip().splitlines()[-1] if out.strip() else ''
-            try:
-                res = json.loads(line)
-            except ValueError:
-                nfail += 1
-                failures.append({'clause': 'harness', 'case': {'worker': part}, 'expected': 'a result line',
-                                 'got': (err or out)[-600:]})
-                continue
-            cases += res['cases']
-            nfail += res['nfail']
-            failures += res['failures']
-            items = res['items']
-            timed_out = timed_out or res['timed_out']
-            for k, v in res['stats'].items():
-                stats[k] = stats.get(k, 0) + v
-            for k, v in res['skip_reasons'].items():
-                reasons[k] = reasons.get(k, 0) + v
-            for k, v in res['hist'].items():
-                hist[k] = hist.get(k, 0) + v
-            if res['resume'] is not None and respawns < 40:
-                respawns += 1
-                procs[part] = spawn(part, res['resume'])
+    results, respawns = supervise(tier, seed, 6 if tier == 'quick' else 8, deadline, 'c01_', 'engine-value')
+    cases, failures, nfail = 0, [], 0
+    stats, reasons, items, timed_out, hist = {}, {}, None, False, {}
+    for res in results:
+        cases += res['cases']
+        nfail += res['nfail']
+        failures += res['failures']
+        items = res.get('items', items)
+        timed_out = timed_out or res['timed_out']
+        for k, v in res.get('stats', {}).items():
+            stats[k] = stats.get(k, 0) + v
+        for k, v in res.get('skip_reasons', {}).items():
+            reasons[k] = reasons.get(k, 0) + v
+        for k, v in res['hist'].items():
+            hist[k] = hist.get(k, 0) + v
     g = GRID[tier]
     bound = ('%d work items: every operator kind (%d kinds: 15 binary, 7 unary, PowerConstant with 7 exponents / 3 spellings, BelongsTo, '
              'Elem incl. a negative key, ConditionalSum, bioMultSum list/dict, bioLinearUtility, logit with/without '
